@@ -4,6 +4,7 @@
 //! trusted: env: bitcoin types are skeletons: Amount(u64) with bitcoin::Amount's checked `+=` and `-` (they panic on overflow/underflow: obligations), comparison by value, MAX_MONEY = 21e14 sat; ScriptBuf opaque with an uninterpreted minimal_non_dust() (at most MAX_MONEY: bitcoin computes it from the script length); TxOut / Transaction field skeletons; Transaction::weight() is an uninterpreted function of the transaction *before* the change output is added (the function reads it once, before pushing); VarInt(n).size() is bitcoin's compact-size length (1/3/5/9 bytes); R8: `change_output.consensus_encode(&mut sink()).unwrap()` -> encoded_len(&change_output) (the serialized length of a TxOut: 8 + compact size + script length, bounded by 10_009 for a standard script)
 //! trusted: R15 (deep slices): SpendableOutputDescriptor::create_spendable_outputs_psbt: the TxIn built in each of the three arms (static payment output with its `sequence` statement, delayed payment output, static output) verbatim as functions of the descriptor; OutPoint::into_bitcoin_outpoint is re-declared (txid, index widened to u32); the duplicate test, the witness weights, the input value sum (MAX_MONEY test) and the PSBT assembly are dropped and not claimed
 //! trusted: R15 (deep slices): KeysManager::sign_spendable_outputs_psbt: the statement that (re)fills the per-channel signer cache in the StaticPaymentOutput and DelayedPaymentOutput arms, verbatim as functions of the cache and the descriptor; derive_channel_keys is the uninterpreted signer_of(channel_keys_id); R8: `a != b` on 32-byte ids -> arr_ne; locating the input, signing and the StaticOutput arm are dropped and not claimed
+//! trusted: R15 (deep slice): ChannelMonitorImpl::get_spendable_outputs: the body of the loop over the outputs of a confirmed transaction, verbatim as a function of (index, output); the descriptor structs and enum SpendableOutputDescriptor are extracted from sign/mod.rs; the monitor is a six-field skeleton; scripts compare by identity; R8: `opt.as_ref() == Some(&x)` -> option_script_is (verified helper)
 //! assume: every requested output carries at most MAX_MONEY (a valid TxOut): the loop sums them with bitcoin::Amount's `+=`, which panics on u64 overflow before the `>= input_value` test can refuse (observation O8 in DESIGN); at most 1_000_000 outputs
 //! assume: transaction weight and witness weight are at most 4_000_000 (consensus block weight limit): the function computes fees in i64 after `as i64` casts
 //! trusted: assume_specification for core::cmp::max / core::cmp::min (std definitions): present in every unit so that a change that introduces them is verified instead of being rejected by the tool
@@ -228,6 +229,71 @@ impl KeysManager {
     if keys_cache.is_none() { keys_cache = Some(( self.derive_channel_keys
 //@end
 }
+}
+
+// ---- ChannelMonitorImpl::get_spendable_outputs: which outputs of a confirmed transaction are reported as ours ------------
+pub mod spendable_outputs {
+use vstd::prelude::*;
+#[derive(Clone, Copy)] pub struct Txid(pub u64);
+#[derive(Clone, Copy)] pub struct PublicKey(pub u64);
+#[derive(Clone, Copy)] pub struct RevocationKey(pub u64);
+pub struct ScriptBuf { pub id: u64 }
+impl vstd::std_specs::cmp::PartialEqSpecImpl for ScriptBuf { open spec fn obeys_eq_spec() -> bool { true } open spec fn eq_spec(&self, other: &ScriptBuf) -> bool { self.id == other.id } }
+impl PartialEq for ScriptBuf { fn eq(&self, o: &ScriptBuf) -> (r: bool) { self.id == o.id } }
+pub struct TxOut { pub script_pubkey: ScriptBuf, pub value: u64 }
+impl Clone for TxOut { #[verifier::external_body] fn clone(&self) -> (r: Self) ensures r == *self { unimplemented!() } }
+pub struct Transaction { pub id: Txid, pub output: Vec<TxOut> }
+impl Transaction { #[verifier::external_body] pub fn compute_txid(&self) -> (r: Txid) ensures r == self.id { unimplemented!() } }
+pub struct OutPoint { pub txid: Txid, pub index: u16 }
+pub struct ChannelTransactionParameters { pub channel_value_satoshis: u64 }
+impl Clone for ChannelTransactionParameters { #[verifier::external_body] fn clone(&self) -> (r: Self) ensures r == *self { unimplemented!() } }
+pub struct FundingScope { pub channel_parameters: ChannelTransactionParameters }
+//@extract lightning/src/sign/mod.rs :: struct DelayedPaymentOutputDescriptor
+//@end
+//@extract lightning/src/sign/mod.rs :: struct StaticPaymentOutputDescriptor
+//@end
+//@extract lightning/src/sign/mod.rs :: enum SpendableOutputDescriptor
+//@end
+pub struct ChannelMonitorImpl { pub destination_script: ScriptBuf, pub broadcasted_holder_revokable_script: Option<(ScriptBuf, PublicKey, RevocationKey)>, pub on_holder_tx_csv: u16,
+    pub counterparty_payment_script: ScriptBuf, pub shutdown_script: Option<ScriptBuf>, pub channel_keys_id: [u8; 32] }
+pub open spec fn static_desc(m: ChannelMonitorImpl, txid: Txid, i: u16, outp: TxOut) -> SpendableOutputDescriptor {
+    SpendableOutputDescriptor::StaticOutput { outpoint: OutPoint { txid, index: i }, output: outp, channel_keys_id: Some(m.channel_keys_id) } }
+// what get_spendable_outputs reports for one output: one descriptor per script of ours it pays to, in the order destination / delayed / to_remote / shutdown
+pub open spec fn reported_for(m: ChannelMonitorImpl, f: FundingScope, txid: Txid, i: u16, outp: TxOut) -> Seq<SpendableOutputDescriptor> {
+    let a = if outp.script_pubkey.id == m.destination_script.id { seq![static_desc(m, txid, i, outp)] } else { Seq::empty() };
+    let b = if m.broadcasted_holder_revokable_script is Some && m.broadcasted_holder_revokable_script->Some_0.0.id == outp.script_pubkey.id {
+        seq![SpendableOutputDescriptor::DelayedPaymentOutput(DelayedPaymentOutputDescriptor { outpoint: OutPoint { txid, index: i },
+            per_commitment_point: m.broadcasted_holder_revokable_script->Some_0.1, to_self_delay: m.on_holder_tx_csv, output: outp,
+            revocation_pubkey: m.broadcasted_holder_revokable_script->Some_0.2, channel_keys_id: m.channel_keys_id,
+            channel_value_satoshis: f.channel_parameters.channel_value_satoshis, channel_transaction_parameters: Some(f.channel_parameters) })] } else { Seq::empty() };
+    let c = if m.counterparty_payment_script.id == outp.script_pubkey.id {
+        seq![SpendableOutputDescriptor::StaticPaymentOutput(StaticPaymentOutputDescriptor { outpoint: OutPoint { txid, index: i }, output: outp, channel_keys_id: m.channel_keys_id,
+            channel_value_satoshis: f.channel_parameters.channel_value_satoshis, channel_transaction_parameters: Some(f.channel_parameters) })] } else { Seq::empty() };
+    let d = if m.shutdown_script is Some && m.shutdown_script->Some_0.id == outp.script_pubkey.id { seq![static_desc(m, txid, i, outp)] } else { Seq::empty() };
+    ((a + b) + c) + d
+}
+impl ChannelMonitorImpl {
+//@extract lightning/src/chain/channelmonitor.rs :: impl ChannelMonitorImpl :: fn get_spendable_outputs
+//@slice R15
+    for (i, outp) in tx.output.iter().enumerate() { $body:any } spendable_outputs }
+//@with
+    fn spendable_descriptors_for_output(&self, funding_spent: &FundingScope, tx: &Transaction, i: usize, outp: &TxOut, spendable_outputs: &mut Vec<SpendableOutputDescriptor>) { $body }
+//@rw R8
+    self.shutdown_script.as_ref() == Some(&outp.script_pubkey)
+//@with
+    option_script_is(&self.shutdown_script, &outp.script_pubkey)
+//@requires
+    old(spendable_outputs)@.len() == 0, i < 65536,
+//@ensures P C07 an-output-is-reported-as-spendable-exactly-for-each-of-our-scripts-it-pays-to-with-its-own-outpoint-and-for-a-delayed-output-the-delay-and-keys-it-was-built-with
+    final(spendable_outputs)@ =~= reported_for(*self, *funding_spent, tx.id, i as u16, *outp),
+//@mutant delayed_output_reported_with_the_wrong_delay
+    to_self_delay: self.on_holder_tx_csv,
+//@with
+    to_self_delay: 0,
+//@end
+}
+pub fn option_script_is(o: &Option<ScriptBuf>, s: &ScriptBuf) -> (r: bool) ensures r == (*o is Some && o->Some_0.id == s.id)
+{ match o { Some(x) => x.id == s.id, None => false } }
 }
 }
 fn main() {}
